@@ -11,6 +11,7 @@ pub mod selftest;
 pub mod c01;
 pub mod c02;
 pub mod c03;
+pub mod c06;
 pub mod c07;
 pub mod c10;
 pub mod c13;
@@ -236,6 +237,7 @@ pub fn run(id: &str, tier: Tier, rest: &[String]) -> i32 {
         "C01" => c01::run(tier, part),
         "C02" => c02::run(tier, part),
         "C03" => c03::run(tier, part),
+        "C06" => c06::run(tier, part),
         "C07" => c07::run(tier, part),
         "C10" => c10::run(tier, part),
         "C13" => c13::run(tier, part),
@@ -266,6 +268,7 @@ pub fn replay(file: &str) -> i32 {
         "C01" => c01::replay(&doc["replay"]),
         "C02" => c02::replay(tier, &doc["replay"]),
         "C03" => c03::replay(tier, &doc["replay"]),
+        "C06" => c06::replay(tier, &doc["replay"]),
         "C07" => c07::replay(tier, &doc["replay"]),
         "C17" => c17::replay(tier, &doc["replay"]),
         "C10" => c10::replay(tier, &doc["replay"]),
